@@ -35,7 +35,7 @@ def other(ep):
 def measure(conn):
     reasm = sum(len(st.receiver._buffer) for st in conn._streams.values())
     crypto = sum(len(st.receiver._buffer) for st in conn._crypto_streams.values())
-    chal = max([len(p.remote_challenges) for p in conn._network_paths] or [0])
+    chal = max([len(p.remote_challenges) for p in conn._network_paths] or [0])     # the documented bound is per path
     return {"reasm": reasm, "crypto": crypto, "chal": chal, "retire": len(conn._retire_connection_ids),
             "pcids": 1 + len(conn._peer_cid_available)}
 
@@ -90,6 +90,8 @@ def session(job):
                             k = "uni" if f["uni"] else "bidi"
                             adv.append({"ev": "adv", "kind": k, "sid": 0, "value": f["max"]})
                             lim[k] = max(lim[k], f["max"])
+                        elif f["t"] == "retire_connection_id":
+                            adv.append({"ev": "rcid", "seq": f["seq"]})
             while s.net:                       # the genuine peer never sees X's packets: the hostile peer has taken over
                 s.drop(0)
             return code, adv
@@ -115,7 +117,16 @@ def session(job):
                 prev_lo = lo
             return H.f_ack(runs[0][1], 0, runs[0][1] - runs[0][0], ranges[:20])
 
-        harvest(0)
+        genuine_ncid = {}
+        emitter = {e["dg"]: e["ep"] for e in s.log if e["k"] == "pkt"}
+        for dg in sorted(s.emitted):
+            if emitter.get(dg) == src:
+                for p in s.emitted[dg]:
+                    for f in (p.get("frames") or []) if p.get("ok") else []:
+                        if f["t"] == "new_connection_id":
+                            genuine_ncid[f["seq"]] = f
+                            lines.append({"ev": "ncid", "seq": f["seq"], "rpt": f["rpt"]})
+        lines += [a for a in harvest(0)[1] if a["ev"] == "rcid"]
         peer_bidi = [1, 5, 9] if X == "c" else [0, 4, 8]
         peer_uni = [3, 7, 11] if X == "c" else [2, 6, 10]
         hi = {}
@@ -128,9 +139,11 @@ def session(job):
             if plan is not None:
                 if step >= len(plan):
                     break
-                if plan[step][0] in ("fire", "ping", "tick"):
+                if plan[step][0] in ("fire", "ping", "tick", "changecid"):
                     if plan[step][0] == "fire":
                         s.fire(X)
+                    elif plan[step][0] == "changecid":
+                        s.api(X, "changecid")
                     elif plan[step][0] == "ping":
                         s.api(X, "ping", 2000 + step)
                     else:
@@ -138,7 +151,7 @@ def session(job):
                     code, adv = harvest(n0)
                     lines += adv
                     continue
-                r = 1.0 if plan[step][0] == "ncidlow" else 0.0
+                r = 1.0 if plan[step][0] in ("ncidlow", "ncidnew", "ciddup") else 0.0
             if r < 0.72:
                 # STREAM / RESET_STREAM aimed at a limit
                 far = rnd.random() < 0.08
@@ -210,6 +223,7 @@ def session(job):
                 if plan is not None:
                     kind = plan[step][0]
                 more = []
+                ncid_sent = []
                 if kind == "ack":
                     payload = build_ack(rnd.random() < 0.8)
                     if payload is None:
@@ -220,6 +234,20 @@ def session(job):
                     payload = H.f_crypto(off, bytes(rnd.choice([1, 100, 1100])))
                 elif kind == "challenge":
                     payload = b"".join(H.f_path_challenge(bytes([rnd.randrange(256)]) * 8) for _ in range(rnd.choice([1, 33, 100])))
+                elif kind == "ncidnew":
+                    # fresh connection IDs, as many as the peer has seen retired (stays within the limit)
+                    base = job.setdefault("_seq", 8)
+                    k = plan[step][1] if plan is not None else 1
+                    payload = b"".join(H.f_new_cid(base + i, 0, bytes([0xEE, (base + i) >> 8, (base + i) & 255]) + bytes(5)) for i in range(k))
+                    ncid_sent = [(base + i, 0) for i in range(k)]
+                    job["_seq"] = base + k
+                elif kind == "ciddup":
+                    # a late copy of a NEW_CONNECTION_ID frame the genuine peer sent during the handshake (same ID and token)
+                    g = genuine_ncid.get(plan[step][1] if plan is not None else rnd.choice(sorted(genuine_ncid) or [1]))
+                    if g is None:
+                        continue
+                    payload = H.f_new_cid(g["seq"], g["rpt"], bytes(g["cid"]), bytes(g["srt"]))
+                    ncid_sent = [(g["seq"], g["rpt"])]
                 elif kind == "ncidlow":
                     # connection IDs announced *below* a Retire Prior To already processed (reordered frames): each must be
                     # retired at once, and the queue of pending retirements stays bounded whatever the order
@@ -227,21 +255,31 @@ def session(job):
                     if not job.get("_rpt"):
                         job["_rpt"] = 5000
                         payload = H.f_new_cid(5000, 5000, cidb(5000))
+                        ncid_sent = [(5000, 5000)]
                     else:
                         low = job.setdefault("_low", 1000)
                         packs = [b"".join(H.f_new_cid(low + 38 * j + i, 0, cidb(low + 38 * j + i)) for i in range(38)) for j in range(4)]
                         job["_low"] = low + 38 * 4
                         payload, more = packs[0], packs[1:]
+                        ncid_sent = [(low + i, 0) for i in range(38 * 4)]
                 else:
                     base = job.setdefault("_seq", 8)
                     k = rnd.choice([1, 3, 7])
-                    payload = b"".join(H.f_new_cid(base + i, base + i if rnd.random() < 0.7 else 0,
-                                                   bytes([0xEE, (base + i) >> 8, (base + i) & 255]) + bytes(5)) for i in range(k))
+                    ncid_sent = [(base + i, base + i if rnd.random() < 0.7 else 0) for i in range(k)]
+                    payload = b"".join(H.f_new_cid(q, r_, bytes([0xEE, q >> 8, q & 255]) + bytes(5)) for q, r_ in ncid_sent)
                     job["_seq"] = base + k
-                H.inject(s, src, "1rtt", payload, kind)
+                kw = {}
+                if kind == "challenge" and rnd.random() < 0.5:
+                    # from a source address the endpoint has never seen (a path of its own, created while the packet is processed)
+                    job["_addr"] = job.get("_addr", 0) + 1
+                    kw["from_addr"] = ("10.9.%d.%d" % (job["_addr"] // 200, 1 + job["_addr"] % 200), 5000 + job["_addr"])
+                H.inject(s, src, "1rtt", payload, kind, **kw)
+                inj0 = next(e for e in reversed(s.log) if e["k"] == "inject")
                 for extra in more:             # several packets before the endpoint next transmits
                     if conn._close_event is None:
                         H.inject(s, src, "1rtt", extra, kind)
+                if inj0["accepted"]:
+                    lines += [{"ev": "ncid", "seq": q, "rpt": r_} for q, r_ in ncid_sent]
                 code, adv = harvest(n0)
                 lines += adv
                 closed = code != -1
@@ -332,6 +370,13 @@ def run(check):
     for tgt in "cs":
         jobs.append({"cfg": {"max_stream_data": 1000, "max_data": 100000, "s_max_stream_data": 1000, "s_max_data": 100000},
                      "target": tgt, "seed": 79, "loaded": False, "steps": 10, "plan": [["ncidlow"], ["ncidlow"], ["ncidlow"]]})
+    # corpus: the endpoint retires two IDs of its own accord, the peer replaces them (back at the limit), then a late copy of
+    # a NEW_CONNECTION_ID frame of the handshake arrives: nothing new, nobody exceeded anything
+    for tgt in "cs":
+        b1 = 5 if tgt == "c" else 4
+        jobs.append({"cfg": {"max_stream_data": 1000, "max_data": 100000, "s_max_stream_data": 1000, "s_max_data": 100000},
+                     "target": tgt, "seed": 80, "loaded": False, "steps": 10,
+                     "plan": [["changecid"], ["fire"], ["changecid"], ["fire"], ["ncidnew", 2], ["ciddup", 1], ["ciddup", 2], ["frame", b1, -990, 10, False, False]]})
     # corpus: a MAX_STREAMS frame is declared lost by the very packet that opens a stream it allows
     for tgt in "cs":
         b1, b3 = (5, 13) if tgt == "c" else (4, 12)
